@@ -100,6 +100,22 @@ class Plain(Logged):
     __repr__ = __str__
 
 
+class Reprful(Plain):
+    """An object whose repr() shows its fields (as a dataclass's does) while its string form does not: the string form
+    is the documented conversion, the repr is not."""
+
+    _shape = "reprful"
+
+    def __repr__(self) -> str:
+        return "Reprful(secret='" + MARK + "-repr')"
+
+    def __hash__(self) -> int:
+        return 7
+
+    def __eq__(self, other: object) -> bool:
+        return self is other
+
+
 class MapDrop(Logged, Mapping):  # type: ignore[type-arg]
     _shape = "mapdrop"
     cls_secret = MARK + "-class-attr"
@@ -232,6 +248,7 @@ def make_objects() -> dict[str, Any]:
     plain = Plain()
     return {
         "plain": plain,
+        "reprful": Reprful(),
         "mapdrop": MapDrop(),
         "seqdrop": SeqDrop(),
         "classobj": ClassObj,
@@ -307,6 +324,10 @@ def object_sites() -> list[str]:
     s += ["{{ 'x' | escape: environment: o }}", "{{ objs | join: '-', environment: o }}", "{{ 'now' | date: '%Y', environment: o }}", "{{ 'hello' | t: context: o }}",
           "{{ objs | map: i => i, context: o | size }}", "{{ 1 | currency: context: o }}", "{{ 'a' | gettext: context: o, environment: o }}", "{{ 'x' | strip_html: environment: o }}"]
     s += ["{{ objs | " + f + " | json }}" for f in ("map: 'public'", "sort", "join", "first", "compact", "uniq", "sum", "reverse | first")]
+    # the object used as a KEY of a lookup that fails (what an undefined reports about the path must not show more of the
+    # object than its string form)
+    s += ["{{ hh[o] }}", "{{ hh[o].x }}", "{{ hh.k[o] }}{{ objs[o] }}", "{{ o[o] }}{{ o[o].x.y }}", "{{ hh[o] | default: 'd' }}{{ hh[o] | upcase }}", "{% assign a = hh[o].x %}{{ a }}{{ a | json }}",
+          "{{ nosuch[o] }}{{ [o] }}{{ [o].x }}", "{% for x in hh[o] %}{% endfor %}{% if hh[o] %}{% endif %}{{ hh[o] | size }}"]
     return s
 
 
@@ -331,13 +352,19 @@ _ENV: dict[str, Any] = {}
 _SEEN_FILTER_INPUT: list[tuple[str, str]] = []
 
 
-def env() -> Any:
-    if "e" in _ENV:
-        return _ENV["e"]
-    e = impl.make_env(templates={"show": "[{{ p }}]"}, shopify=True)
+def env(novalidate: bool = False, undefined: str | None = None) -> Any:
+    """`novalidate`: an environment that skips the parse-time validation of filter arguments (a documented option;
+    what a template can reach at render time must not depend on it)."""
+    key = ("nv" if novalidate else "e") + (undefined or "")
+    if key in _ENV:
+        return _ENV[key]
+    from liquid2.undefined import DebugUndefined
+    from liquid2.undefined import StrictUndefined
+
+    e = impl.make_env(templates={"show": "[{{ p }}]"}, shopify=True, validate=not novalidate, undefined={"debug": DebugUndefined, "strict": StrictUndefined, None: None}[undefined])
     for name, f in list(e.filters.items()):
         e.filters[name] = _wrap(name, f)
-    _ENV["e"] = e
+    _ENV[key] = e
     return e
 
 
@@ -362,8 +389,10 @@ def check_site(site: str, nm: str | None, shape: str, mode: str, res: ShardResul
     out: list[tuple[str, Any, Any]] = []
     objs = make_objects()
     o = objs[shape]
-    data = {"o": o, "objs": [o, objs["dict"], o], "v": nm if nm is not None else "secret"}
-    e = env()
+    data = {"o": o, "objs": [o, objs["dict"], o], "v": nm if nm is not None else "secret", "hh": {"k": {"public": 1}, "public": "P"}}
+    flags = mode.split(":")[1:]
+    e = env("nv" in flags, "debug" if "debug" in flags else "strict" if "strict" in flags else None)
+    mode = mode.split(":")[0]
     try:
         t = e.from_string(site)
     except LiquidError:
@@ -516,9 +545,11 @@ def _cases(tier: str) -> list[tuple]:
                     if mode == "async" and tier == "quick" and shape not in ("plain", "mapdrop", "classobj", "holder", "holderlist"):
                         continue
                     cases.append((site, nm, shape, mode))
+                if shape in ("plain", "reprful", "mapdrop", "classobj"):
+                    cases.append((site, nm, shape, "sync:debug"))
     for site in object_sites():
         for shape in shapes:
-            for mode in ("sync", "async"):
+            for mode in ("sync", "async", "sync:nv", "async:nv", "sync:debug", "async:debug", "sync:strict"):
                 cases.append((site, None, shape, mode))
     if tier == "thorough":
         for a, b in itertools.product(NAMES[:30], repeat=2):
